@@ -37,7 +37,7 @@ type c12Result struct {
 	Key     string `json:"key,omitempty"`
 }
 
-var c12Classes = []string{"nil-payload", "zero-index", "zero-id", "empty-group", "zero-member", "unset-group", "bad-prefix", "bad-label",
+var c12Classes = []string{"nil-payload", "zero-index", "zero-id", "empty-group", "zero-member", "zero-member-missing", "unset-group", "bad-prefix", "bad-label",
 	"label-ge-2^32", "empty-ni", "unknown-ni", "invalid-utf8-ni", "unknown-group-ni", "other-op-type", "undefined-enum", "undefined-enum-in-list", "no-entry",
 	"delete-bad-prefix", "delete-bad-label", "delete-zero-id", "delete-zero-index", "delete-no-entry", "duplicate-members", "boundary-ints",
 	"replace-missing", "get-empty-name", "get-unknown-ni", "get-bad-aft", "flush-no-ni", "flush-unknown-ni", "flush-empty-name"}
@@ -75,6 +75,8 @@ func malformedOp(r *drv.Rng, class string, id uint64, el *drv.U128) (drv.OpSpec,
 		o.T, o.Key = "nhg", 2
 	case "zero-member":
 		o.T, o.Key, o.NHs = "nhg", 2, [][2]uint64{{0, 1}, {1, 1}}
+	case "zero-member-missing": // index zero beside members that are not installed (yet)
+		o.T, o.Key, o.NHs = "nhg", 2, [][2]uint64{{0, 1}, {5, 1}, {6, 1}, {7, 1}}
 	case "unset-group":
 		top()
 		o.NHG = 0
